@@ -137,6 +137,18 @@ def _fresh(base: str) -> str:
 def _tuple_index_simplify(e: ast.AST) -> ast.AST:
     """(a, b)[0] -> a   (after substituting a local tuple alias)"""
     class S(ast.NodeTransformer):
+        def visit_Call(self, node):
+            node = self.generic_visit(node)
+            if any(isinstance(a, ast.Starred) and isinstance(a.value, (ast.Tuple, ast.List)) for a in node.args):
+                args = []
+                for a in node.args:
+                    if isinstance(a, ast.Starred) and isinstance(a.value, (ast.Tuple, ast.List)):
+                        args.extend(a.value.elts)
+                    else:
+                        args.append(a)
+                node.args = args
+            return node
+
         def visit_Subscript(self, node):
             node = self.generic_visit(node)
             if isinstance(node.value, ast.Tuple) and isinstance(node.slice, ast.Constant) and isinstance(node.slice.value, int) and \
@@ -148,6 +160,9 @@ def _tuple_index_simplify(e: ast.AST) -> ast.AST:
 
 def has_direct_effects(func_node: ast.AST) -> bool:
     for n in walk_no_nested(func_node):
+        # a bound solver method taken as a value (local alias) counts: the call happens through the alias
+        if isinstance(n, ast.Attribute) and n.attr in SOLVER_EFFECTS and dotted(n.value) in ("self.solver", "solver"):
+            return True
         if isinstance(n, ast.Call) and isinstance(n.func, ast.Attribute) and n.func.attr in SOLVER_EFFECTS and dotted(n.func.value) in ("self.solver", "self"):
             return True
         if isinstance(n, ast.Assign):
@@ -333,11 +348,19 @@ class Extractor:
     def mutated(self):
         return self.cur.mutated
 
-    def _is_solver_call(self, call: ast.Call) -> Optional[str]:
-        if isinstance(call.func, ast.Attribute) and call.func.attr in SOLVER_EFFECTS:
-            recv = dotted(call.func.value)
+    def _is_solver_call(self, call: ast.Call, env=None) -> Optional[str]:
+        func = call.func
+        if env:
+            # local aliases:  add = self.solver.add_constraint ... add(...)   /   solver = self.solver ... solver.add_constraint(...)
+            if isinstance(func, ast.Name) and func.id in env:
+                func = env[func.id]
+            elif isinstance(func, ast.Attribute) and isinstance(func.value, ast.Name) and func.value.id in env and \
+                    isinstance(env[func.value.id], (ast.Attribute, ast.Name)):
+                func = ast.Attribute(value=env[func.value.id], attr=func.attr, ctx=ast.Load())
+        if isinstance(func, ast.Attribute) and func.attr in SOLVER_EFFECTS:
+            recv = dotted(func.value)
             if recv in self.solver_names:
-                return call.func.attr
+                return func.attr
         return None
 
     def _resolve_self_method(self, call: ast.Call):
@@ -460,6 +483,24 @@ class Extractor:
                 continue
             break
         binds: Dict[str, ast.AST] = {}
+        if isinstance(it, (ast.ListComp, ast.GeneratorExp, ast.SetComp)) and isinstance(it.elt, ast.Name) and isinstance(target, (ast.Tuple, ast.List)) and \
+                any(isinstance(g.target, ast.Name) and g.target.id == it.elt.id for g in it.generators) and \
+                all(isinstance(x, ast.Name) for x in target.elts):
+            # for (u, v) in [e for e in D if c(e)]: the generator variable *is* the loop element: bind it to the loop's own tuple
+            it = copy.deepcopy(it)
+            nm = it.elt.id
+            tup = ast.Tuple(elts=[ast.Name(id=x.id, ctx=ast.Load()) for x in target.elts], ctx=ast.Load())
+
+            class _R(ast.NodeTransformer):
+                def visit_Name(self, node):
+                    return copy.deepcopy(tup) if node.id == nm and isinstance(node.ctx, ast.Load) else node
+            for g in it.generators:
+                if isinstance(g.target, ast.Name) and g.target.id == nm:
+                    g.target = ast.Tuple(elts=[ast.Name(id=x.id, ctx=ast.Store()) for x in target.elts], ctx=ast.Store())
+                else:
+                    g.iter = _R().visit(g.iter)
+                g.ifs = [_tuple_index_simplify(_R().visit(c)) for c in g.ifs]
+            it.elt = copy.deepcopy(tup)
         if isinstance(it, (ast.ListComp, ast.GeneratorExp, ast.SetComp)):
             out: List[Ctx] = []
             ren: Dict[str, str] = {}
@@ -476,6 +517,14 @@ class Extractor:
                     out.append(Ctx("if", test=subst(Renamer(ren).visit(copy.deepcopy(c)), binds), pol=True))
             elt = subst(Renamer(ren).visit(copy.deepcopy(it.elt)), binds)
             self._unify(target, elt, binds)
+            return out, binds
+        if isinstance(it, ast.Call) and dotted(it.func) in ("itertools.product", "product") and not it.keywords and len(it.args) >= 1 and \
+                isinstance(target, (ast.Tuple, ast.List)) and len(target.elts) == len(it.args):
+            out = []
+            for t_, a_ in zip(target.elts, it.args):
+                sub_ctx, sub_b = self._domain(t_, a_, {})
+                out.extend(sub_ctx)
+                binds.update(sub_b)
             return out, binds
         if isinstance(it, ast.Call) and isinstance(it.func, ast.Name) and it.func.id == "enumerate" and len(it.args) == 1 and not it.keywords and \
                 isinstance(target, ast.Tuple) and len(target.elts) == 2 and isinstance(target.elts[0], ast.Name):
@@ -554,7 +603,7 @@ class Extractor:
     # ------------------------------------------------------------------ effects
     def _record_calls(self, expr: ast.AST, ctx, env, target=None):
         for c in [n for n in ast.walk(expr) if isinstance(n, ast.Call)]:
-            k = self._is_solver_call(c)
+            k = self._is_solver_call(c, env)
             if k is None:
                 continue
             args = {}
@@ -669,6 +718,10 @@ class Extractor:
                 tgt_name = None
                 if len(st.targets) == 1:
                     tgt_name = dotted(st.targets[0])
+                else:
+                    # chained assignment  local = self.family = <value>: the family is the self attribute, the local its alias
+                    selfs = [dotted(t) for t in st.targets if (dotted(t) or "").startswith("self.")]
+                    tgt_name = selfs[0] if selfs else dotted(st.targets[0])
                 self._record_calls(st.value, ctx, env, target=tgt_name)
                 inl = self._try_inline(st.value, ctx, env) if isinstance(st.value, ast.Call) else None
                 # flag stores
@@ -684,7 +737,8 @@ class Extractor:
                             self.effects.append(eff)
                         if base.startswith("self.") and base in env:
                             env = {k: v for k, v in env.items() if k != base}
-                pure = isinstance(st.value, SUBSTITUTABLE) and not any(self._is_solver_call(c) for c in ast.walk(st.value) if isinstance(c, ast.Call))
+                pure = isinstance(st.value, SUBSTITUTABLE) and not any(self._is_solver_call(c, env) for c in ast.walk(st.value) if isinstance(c, ast.Call))
+                chained_alias = len(st.targets) > 1 and tgt_name and tgt_name.startswith("self.")
                 if inl is not None:
                     env = {k: v for k, v in env.items() if not k.startswith("self.")}
                     env.update(inl)
@@ -699,6 +753,11 @@ class Extractor:
                 else:
                     killed = _assigned_names([st])
                     env = {k: v for k, v in env.items() if k not in killed and not (tgt_name and k == tgt_name)}
+                if chained_alias:
+                    env = dict(env)
+                    for t in st.targets:
+                        if isinstance(t, ast.Name) and t.id not in self.mutated:
+                            env[t.id] = ast.parse(tgt_name, mode="eval").body
             elif isinstance(st, (ast.AugAssign, ast.AnnAssign)):
                 if getattr(st, "value", None) is not None:
                     self._record_calls(st.value, ctx, env)
@@ -897,6 +956,24 @@ class ComprehensionEdges(ast.NodeTransformer):
     visit_DictComp = _comp
 
 
+class ProductToComp(ast.NodeTransformer):
+    """itertools.product(A, B, ...) (possibly wrapped in list()) -> [(p0, p1, ...) for p0 in A for p1 in B ...]"""
+
+    def visit_Call(self, node):
+        node = self.generic_visit(node)
+        inner = node
+        if isinstance(node.func, ast.Name) and node.func.id in ("list", "tuple") and len(node.args) == 1 and not node.keywords and isinstance(node.args[0], ast.ListComp):
+            return node.args[0]
+        if isinstance(node.func, ast.Name) and node.func.id in ("list", "tuple") and len(node.args) == 1 and not node.keywords and isinstance(node.args[0], ast.Call):
+            inner = node.args[0]
+        if isinstance(inner, ast.Call) and dotted(inner.func) in ("itertools.product", "product") and not inner.keywords and inner.args and \
+                not any(isinstance(a, ast.Starred) for a in inner.args):
+            names = [f"prod{i}__v" for i in range(len(inner.args))]
+            gens = [ast.comprehension(target=ast.Name(id=n, ctx=ast.Store()), iter=a, ifs=[], is_async=0) for n, a in zip(names, inner.args)]
+            return ast.ListComp(elt=ast.Tuple(elts=[ast.Name(id=n, ctx=ast.Load()) for n in names], ctx=ast.Load()), generators=gens)
+        return node
+
+
 class _IterListToSet(ast.NodeTransformer):
     def _comp(self, node):
         node = self.generic_visit(node)
@@ -916,6 +993,7 @@ class _IterListToSet(ast.NodeTransformer):
 def canon_expr(e: ast.AST) -> ast.AST:
     """value-level canonical form shared by the rules: edge-attribute idioms, dict.get idiom, comprehension variables"""
     x = copy.deepcopy(e)
+    x = ProductToComp().visit(x)
     x = _IterListToSet().visit(x)
     x = ComprehensionEdges().visit(x)
     x = EdgeAttrCanon({}).visit(x)
@@ -1307,6 +1385,7 @@ def canon_effect(eff: Effect, var_names: Set[str]) -> Dict[str, object]:
 
     def canon(e: ast.AST) -> ast.AST:
         e = copy.deepcopy(e)
+        e = ProductToComp().visit(e)
         e = ComprehensionEdges().visit(e)
         e = EdgeAttrCanon(data_vars).visit(e)
         e = GetCanon().visit(e)
